@@ -12,6 +12,12 @@
 //     close,<h>  hstat,<h>  hreaddir,<h>  hsync,<h>
 //     mkdir,<path>  rename,<old>,<new>  remove,<path>  removeall,<path>  stat,<path>
 //     readdir,<path>  flush,<path>,<0|1>  sync
+//     hreaddirn,<h>,<count>     filehandle.Readdir(count): count 0 = whole listing; count > 0 = paged.
+//                               Result "<n>,<err>"; the call that hands out the last entries of the
+//                               snapshot appends "=<sorted listing of all pages of this handle>"
+//                               (pages come in Go map order, so only their union is canonical)
+//     fssize                    collectionFileSystem.Size() (total data bytes of all files)
+//     memsize                   MemorySize() ("-" in ASYNC cases: depends on when flushes land)
 //     hold     every PutB started from now on stays "in flight" (blocks before the block is stored)
 //     release  all in-flight PutBs complete; the driver then waits for the flush goroutines
 //   A case that contains `hold` is an ASYNC case: flush completions are delayed across operations, so
@@ -199,6 +205,8 @@ type verifC08State struct {
 	handles map[string]*filehandle
 	// every filenode ever seen through a handle (orphans keep flushing in the background too)
 	seen map[*filenode]bool
+	// entries received so far through paged Readdir calls, per filehandle
+	pages map[*filehandle][]os.FileInfo
 }
 
 func (st *verifC08State) walk(n inode, path string, f func(path string, fn *filenode)) {
@@ -431,6 +439,36 @@ func (st *verifC08State) op(op string) string {
 			return verifC08Err(err)
 		}
 		return verifC08Listing(fis)
+	case a[0] == "hreaddirn" && len(a) == 3:
+		fh := handle()
+		count, err := strconv.Atoi(a[2])
+		if err != nil || count < 0 {
+			return "bad-op"
+		}
+		if fh == nil {
+			return "nohandle"
+		}
+		fis, err := fh.Readdir(count)
+		if !fh.inode.IsDir() || count == 0 {
+			if err != nil {
+				return verifC08Err(err)
+			}
+			return verifC08Listing(fis)
+		}
+		st.pages[fh] = append(st.pages[fh], fis...)
+		res := fmt.Sprintf("%d,%s", len(fis), verifC08Err(err))
+		if err == nil && fh.unreaddirs != nil && len(fh.unreaddirs) == 0 {
+			res += "=" + verifC08Listing(st.pages[fh])
+		}
+		return res
+	case a[0] == "fssize" && len(a) == 1:
+		return fmt.Sprintf("%d", st.fs.Size())
+	case a[0] == "memsize" && len(a) == 1:
+		if st.async {
+			return "-"
+		}
+		st.quiesce()
+		return fmt.Sprintf("%d", st.fs.MemorySize())
 	case a[0] == "hold" && len(a) == 1:
 		st.kc.hold()
 		return "ok"
@@ -544,7 +582,7 @@ func verifC08Case(line string) (out string) {
 	if err != nil {
 		return "load=err"
 	}
-	st := &verifC08State{kc: kc, fs: fs, handles: map[string]*filehandle{}, seen: map[*filenode]bool{}}
+	st := &verifC08State{kc: kc, fs: fs, handles: map[string]*filehandle{}, seen: map[*filenode]bool{}, pages: map[*filehandle][]os.FileInfo{}}
 	for _, op := range strings.Split(f[3], ";") {
 		if op == "hold" {
 			st.async = true
